@@ -1,7 +1,7 @@
 #!/bin/sh
 # background loop: confirm every finished mutation deliverable under /tmp/mut-out once
 while true; do
-  for d in /tmp/mut-out/C??-[a-d]; do
+  for d in /tmp/mut-out/C??-[a-h]; do
     [ -f "$d/patch.diff" ] && [ -f "$d/meta.json" ] && [ -f "$d/demo/run.sh" ] && [ ! -f "$d/confirm.json" ] && python3 /verif/tools/confirm_mut.py "$d" >> /tmp/mut-out/confirm.log 2>&1
   done
   [ -f /tmp/mut-out/STOP ] && exit 0
